@@ -432,7 +432,7 @@ package fsutil
 // both timestamps are the given nanosecond time, split exactly, and the call
 // does not follow a symlink
 //@ func chtimes
-//@   property C01 C13
+//@   property C01 C13 C02
 //@   safety +overflow
 //@   effects Utimes
 //@   ensures once: cnt(Utimes) == old(cnt(Utimes)) + 1 && arg(Utimes, 0) == path
@@ -625,7 +625,7 @@ package fsutil
 // record alone
 //@ pred specLinked(fi os.FileInfo, seenFiles map[uint64]string) bool = seenFiles != nil && asptr(fi.Sys(), syscall.Stat_t).Nlink > 1 && haskey(seenFiles, asptr(fi.Sys(), syscall.Stat_t).Ino)
 //@ func setUnixOpt
-//@   property C09 C11 C17
+//@   property C09 C11 C17 C02
 //@   requires stat != nil && fi != nil && isptr(fi.Sys(), syscall.Stat_t) && asptr(fi.Sys(), syscall.Stat_t) != nil
 //@   modifies *stat, seenFiles[*]
 //@   ensures owner: stat.Uid == asptr(fi.Sys(), syscall.Stat_t).Uid && stat.Gid == asptr(fi.Sys(), syscall.Stat_t).Gid
@@ -645,7 +645,7 @@ package fsutil
 // the stat recorded for an entry: path as given, the lstat mode without the
 // socket bit, nanosecond mtime, size for non-directories, link target for symlinks
 //@ func mkstat
-//@   property C09 C01 C17
+//@   property C09 C01 C17 C02
 //@   requires fi != nil && isptr(fi.Sys(), syscall.Stat_t) && asptr(fi.Sys(), syscall.Stat_t) != nil
 //@   modifies inodemap[*]
 //@   effects Readlink LListxattr LGetxattr
